@@ -239,9 +239,10 @@ def rule_quotation(rep: Report, idx: SourceIndex) -> None:
 		r.check(consts == {-1}, 'shift-minus-one', (RENDER, c_.lineno), f'lark positions are 1-based, the quotation indexes lines and columns from 0: the shift must be -1, found {sorted(consts)}', unparse(sp)[:160])
 	# every guard on the way to Quotation(...) must let the FIRST line through: the components are 1-based before the shift, so a test written for the
 	# shifted value (`span[0] <= 0: no position`) silently drops every node that begins on line 1
-	from vlib.match import atoms as atoms_of, expand_use
-	raw = bq.node
+	from vlib.match import atoms as atoms_of, expand_use, split_tuple_assigns
+	raw = split_tuple_assigns(bq.node)  # `begin, end = m['begin'], m['end']` reads as two assignments
 	for c_ in [c2 for c2 in nodes(raw, ast.Call) if unparse(c2.func).endswith('Quotation') and len(c2.args) == 2]:
+		excludes_zero = False
 		for a, pol in atoms_of(raw, c_):
 			e = expand_use(raw, a, depth=4)
 			if not (isinstance(e, ast.Compare) and len(e.ops) == 1):
@@ -262,7 +263,14 @@ def rule_quotation(rep: Report, idx: SourceIndex) -> None:
 			truth = {ast.Lt: val < 0, ast.LtE: val <= 0, ast.Gt: val > 0, ast.GtE: val >= 0, ast.Eq: val == 0, ast.NotEq: val != 0}.get(type(op))
 			if truth is None:
 				continue
+			val0 = 0 + lc - rc
+			truth0 = {ast.Lt: val0 < 0, ast.LtE: val0 <= 0, ast.Gt: val0 > 0, ast.GtE: val0 >= 0, ast.Eq: val0 == 0, ast.NotEq: val0 != 0}.get(type(op))
+			if truth0 is not None and truth0 != pol:
+				excludes_zero = True  # for L = 0 (a node without a position) this condition keeps the quotation from being built
 			r.check(truth == pol, 'first-line-is-quoted', (RENDER, a.lineno), f'Quotation(...) is reached only under `{unparse(a)}` being {pol}; with the 1-based begin line L the test reads `{unparse(e)[:90]}`, which is {truth} for L = 1: an error reported for a node that begins on the first line of the file gets no quotation at all (the shifted value of "no position" is -1, 0 is line 1)', unparse(a))
+		# ... and must stop a node WITHOUT a position: Empty and proxy nodes carry (0, 0)..(0, 0); shifted by -1 the line index is -1, which Python
+		# reads as the LAST line of the file — the report would quote an unrelated line under `<file>.py:0`
+		r.check(excludes_zero, 'position-less-is-not-quoted', (RENDER, c_.lineno), 'nothing on the way to Quotation(...) tests the begin line of the node: a node without a position (Empty, proxies: span (0, 0)..(0, 0)) is shifted to line -1 and the LAST line of the file is quoted as `<file>.py:0` with one caret — a region that is not the node\'s', unparse(c_)[:100])
 	qi = q.method('__init__')
 	ix = FI(qi)
 	sm = [p_ for p_ in qi.params() if p_ != 'self'][1]
@@ -301,6 +309,32 @@ def rule_quotation(rep: Report, idx: SourceIndex) -> None:
 					r.skip('lines-cut-at-newline-only', (RENDER, n.lineno), f'line list `{unparse(lst)[:60]}` not classified')
 			else:
 				r.skip('lines-cut-at-newline-only', (RENDER, n.lineno), f'line list `{unparse(lst)[:60]}` not classified')
+		# the END of the caret range of a node that continues on a later line is len(<quoted line>): the quoted line must not carry its line terminator.
+		# readlines() keeps the terminator of every line, split('\n') does not
+		for n in subs:
+			lst = n.value
+			keeps = isinstance(lst, ast.Call) and isinstance(lst.func, ast.Attribute) and lst.func.attr == 'readlines'
+			if not keeps:
+				continue
+			rets_ = [x.value for x in nodes(lx, ast.Return) if x.value is not None]
+			def _txt(a: ast.AST | None):
+				v = a.value if isinstance(a, ast.Constant) else None
+				return v.decode('latin-1') if isinstance(v, bytes) else v if isinstance(v, str) else None
+
+			def strips(e: ast.AST) -> bool:
+				for c_ in ast.walk(e):
+					if not (isinstance(c_, ast.Call) and isinstance(c_.func, ast.Attribute)):
+						continue
+					a0 = _txt(c_.args[0]) if c_.args else None
+					if c_.func.attr == 'replace' and len(c_.args) == 2 and a0 == '\n' and _txt(c_.args[1]) == '':
+						return True
+					if c_.func.attr in ('rstrip', 'strip') and (not c_.args or (a0 is not None and '\n' in a0)):
+						return True
+					if c_.func.attr == 'removesuffix' and a0 == '\n':
+						return True
+				return False
+			ok_ = bool(rets_) and all(strips(x) for x in rets_)
+			r.check(ok_, 'quoted-line-without-terminator', (RENDER, n.lineno), f'__load_line returns a line of `{unparse(lst)[:40]}` with its line terminator still attached (`{unparse(rets_[0])[:80] if rets_ else "?"}`): for a node that continues on a later line the caret range ends at len(<quoted line>), so the mark line is one caret longer than the line (two for CRLF) — a class, a function, a call spread over several lines', unparse(rets_[0])[:120] if rets_ else None)
 		reps = [c_ for c_ in nodes(lx, ast.Call) if isinstance(c_.func, ast.Attribute) and c_.func.attr == 'replace' and len(c_.args) == 2 and const_str(c_.args[0]) == '\t']
 		for c_ in reps:
 			r.check(isinstance(const_str(c_.args[1]), str) and len(const_str(c_.args[1])) == 1, 'tab-keeps-columns', (RENDER, c_.lineno), f'a tab of the quoted line is replaced by `{const_str(c_.args[1])!r}`: columns count characters, so the replacement must be exactly one character or the carets shift right of the node on tab-indented lines', unparse(c_)[:80])
